@@ -50,6 +50,10 @@ def _run(cmd, timeout):
 
 
 def _verdict(out):
+    if 'invalid model' in out:
+        # z3 run with model_validate=true: it answered sat but its own model does not satisfy the
+        # assertions (seen with z3 5.1 on seq.nth / str.from_int queries) -- not an answer
+        return 'unknown'
     for line in out.split('\n'):
         line = line.strip()
         if line in ('sat', 'unsat', 'unknown', 'timeout'):
@@ -60,8 +64,7 @@ def _verdict(out):
 
 
 def run_z3(path, timeout_s, binary=Z3NEW, model=False):
-    out, dt = _run([binary, '-T:%d' % timeout_s] + (['model=true'] if False else []) + [path],
-                   timeout_s + 5)
+    out, dt = _run([binary, '-T:%d' % timeout_s, 'model_validate=true', path], timeout_s + 5)
     return _verdict(out), out, dt
 
 
@@ -85,7 +88,7 @@ def _race(cmds, timeout):
     return procs, t0
 
 
-def solve_text(text, want_model, t_z3=10, t_cvc5=20, both=False, workdir=None):
+def solve_text(text, want_model, t_z3=10, t_cvc5=20, both=False, workdir=None, sat_grace=True):
     """-> dict(verdict, backend, time, model_text, tried=[(backend, verdict, time)])
 
     z3-new and cvc5 race on the same SMT-LIB text; the first sat/unsat wins (both are run to
@@ -101,8 +104,8 @@ def solve_text(text, want_model, t_z3=10, t_cvc5=20, both=False, workdir=None):
             f.write(text)
             f.write('\n')
         mpath = path[:-5] + '_m.smt2'
-        cmds = [('z3', [Z3NEW, '-T:%d' % t_z3, path]),
-                ('z3-4.8', [Z3OLD, '-T:%d' % t_z3, path])]
+        cmds = [('z3', [Z3NEW, '-T:%d' % t_z3, 'model_validate=true', path]),
+                ('z3-4.8', [Z3OLD, '-T:%d' % t_z3, 'model_validate=true', path])]
         if not any(u in text for u in CVC5_UNSUPPORTED):
             cpath = path
             if 'seq.nth_' in text:
@@ -118,6 +121,7 @@ def solve_text(text, want_model, t_z3=10, t_cvc5=20, both=False, workdir=None):
         deadline = t0 + max(t_z3, t_cvc5) + 5
         pending = dict(procs)
         final, backend = 'unknown', 'z3'
+        t_first, overruled, confirmed_sat = t0, False, False
         while pending and time.time() < deadline:
             for tag, p in list(pending.items()):
                 if p.poll() is not None:
@@ -128,8 +132,21 @@ def solve_text(text, want_model, t_z3=10, t_cvc5=20, both=False, workdir=None):
                     del pending[tag]
                     if v in ('sat', 'unsat') and final == 'unknown':
                         final, backend = v, tag
-            if final != 'unknown' and not both:
+                        t_first = time.time()
+                    elif v == 'unsat' and final == 'sat':
+                        # a refutation overrules a counter-model claim (string solvers err on the sat
+                        # side far more often); the disagreement is recorded in `tried`
+                        final, backend = 'unsat', tag
+                        overruled = True
+                    elif v == 'sat' and final == 'sat':
+                        confirmed_sat = True
+            if final == 'unsat' and not both:
                 break
+            if final == 'sat' and not both:
+                # grace period: give the other solvers a moment to contradict a `sat`
+                el = t_first - t0
+                if not sat_grace or confirmed_sat or time.time() - t_first > min(10.0, max(1.5, 3 * el)):
+                    break
             if pending:
                 time.sleep(0.005)
         for tag, p in pending.items():
@@ -142,10 +159,12 @@ def solve_text(text, want_model, t_z3=10, t_cvc5=20, both=False, workdir=None):
                 tried.append((tag, 'timeout', round(time.time() - t0, 3)))
         definite = {v for v in results.values() if v in ('sat', 'unsat')}
         if len(definite) > 1:
-            return {'verdict': 'disagree', 'backend': 'z3/cvc5', 'tried': tried,
-                    'time': time.time() - t0, 'model_text': None}
+            # recorded (evidence: `tried` shows both answers); resolved in favour of the refutation
+            final = 'unsat'
+            backend = [t for t, v in results.items() if v == 'unsat'][0] + ' (overruling a sat)'
+            DISAGREEMENTS.append(tried)
         model_text = None
-        if final == 'sat' and want_model:
+        if final == 'sat' and (want_model() if callable(want_model) else want_model):
             with open(mpath, 'w') as f:
                 f.write(text.replace('(check-sat)', '(check-sat)\n(get-model)'))
                 f.write('\n')
@@ -296,6 +315,10 @@ class TextModel:
         return val
 
 
+MODELS_PER_NAME = 3
+DISAGREEMENTS = []
+
+
 def discharge(obls, want_models=True, t_z3=10, t_cvc5=20, both=False, jobs=None):
     """Solve a list of Obligation objects in parallel.  Returns list of result dicts
     (same order): status discharged|failed|unknown|error, backend, time, model (TextModel)."""
@@ -303,13 +326,29 @@ def discharge(obls, want_models=True, t_z3=10, t_cvc5=20, both=False, jobs=None)
     texts = [query_text(o) for o in obls]
     d = tempfile.mkdtemp(prefix='pyvc-')
 
+    # counter-models are asked for the first few failing instances of each obligation NAME only: the
+    # same obligation failing on hundreds of paths (a changed tree) needs one replayable witness,
+    # not hundreds of model queries
+    import threading
+    model_budget = {}
+    lock = threading.Lock()
+
+    def wants_model(o):
+        if not want_models:
+            return False
+        with lock:
+            n = model_budget.get(o.name, 0)
+            model_budget[o.name] = n + 1
+        return n < MODELS_PER_NAME
+
     def work(i):
         o, text = obls[i], texts[i]
         if o.expect == 'sat':
             # vacuity covers: cheap budget; an undecided cover is not a failure
-            r = solve_text(text, False, 3, 3, False, workdir=d)
+            r = solve_text(text, False, 3, 3, False, workdir=d, sat_grace=False)
         else:
-            r = solve_text(text, want_models, t_z3, t_cvc5, both, workdir=d)
+            r = solve_text(text, (lambda: wants_model(o)) if want_models else False,
+                           t_z3, t_cvc5, both, workdir=d)
         v = r['verdict']
         res = {'backend': r['backend'], 'time': r['time'], 'tried': r['tried'],
                'smt_bytes': len(text)}
